@@ -11,7 +11,17 @@ Code(ch) == 31 + CHOOSE i \in 1..Len(Ascii) : SubSeq(Ascii, i, i) = ch
 S(str) == [i \in 1..Len(str) |-> Code(SubSeq(str, i, i))]
 
 MCProxyText == S("http://Proxy.test:3128")
-MCOrigins == IF HLevel = 1
+\* HLevel 3 / 4: the variant class - URLs that differ only in a trailing dot, letter case, an explicit default
+\* port, userinfo / fragment; one PoolManager, keep-alive or the server closing in between
+MCVariantOrigins == {S("http://svc.example.test/"), S("http://svc.example.test./"), S("HTTP://SVC.Example.test/"),
+                     S("http://svc.example.test:80/"), S("http://u:p@svc.example.test/#f"),
+                     S("https://svc.example.test/"), S("https://svc.example.test./")}
+MCPxChoices == IF HLevel >= 3 THEN {NONE} ELSE {NONE, MCProxyText}
+MCPerReqs == IF HLevel >= 3 THEN {FALSE} ELSE BOOLEAN
+MCFails == IF HLevel >= 3 THEN {FALSE} ELSE BOOLEAN
+MCCloses == IF HLevel >= 3 THEN BOOLEAN ELSE {TRUE}
+DevKeyDot == {"KeyStripsTrailingDot"}
+MCOrigins == IF HLevel >= 3 THEN MCVariantOrigins ELSE IF HLevel = 1
              THEN {S("http://alpha.test/a"), S("http://Beta.test.:8080/b?q"), S("https://gamma.test./c")}
              ELSE {S("http://alpha.test/a"), S("http://Beta.test.:8080/b?q"), S("https://gamma.test./c"),
                    S("http://alpha.test:81"), S("https://delta.test:8443/d/../e"), S("http://[::1]:8080/")}
@@ -32,7 +42,7 @@ ShardSpec == ShardInit /\ [][HNext]_hvars
 \* one line per complete history: the environment's choices and the observations the model predicts
 EmitHist == Len(hist) = MaxReq =>
     PrintT(<<"H", ToJson([px |-> px, mgrhdr |-> defaults0.nonempty,
-                          steps |-> [i \in 1..Len(hist) |-> [u |-> hist[i].s, perreq |-> hist[i].perreq, fail |-> hist[i].fault]],
-                          exp |-> [i \in 1..Len(hist) |-> [k |-> hist[i].k, dials |-> hist[i].dials,
+                          steps |-> [i \in 1..Len(hist) |-> [u |-> hist[i].s, perreq |-> hist[i].perreq, fail |-> hist[i].fault, close |-> hist[i].closed]],
+                          exp |-> [i \in 1..Len(hist) |-> [k |-> hist[i].k, dials |-> hist[i].dials, carrier |-> hist[i].carrier,
                                                            hosts |-> IF hist[i].req = <<>> THEN <<>> ELSE hist[i].req[Len(hist[i].req)].hosts]]])>>)
 =============================================================================
